@@ -857,7 +857,11 @@ func (c *specCtx) selectField(base TV, name string) TV {
 		ft := st.Field(i).Type()
 		if isPtr {
 			h := fe.comp(c.cur, fieldComp(so, n, st, i), arrSort(SInt, so.sortOf(ft)))
-			return TV{tSelect(h, base.T), ft}
+			t := tSelect(h, base.T)
+			if _, isSlice := ft.Underlying().(*types.Slice); isSlice && !strings.Contains(t.S, "q_") {
+				fe.assume(tBool(true), Term{"(wfSlice " + t.S + ")", SBool})
+			}
+			return TV{t, ft}
 		}
 		info := so.structInfo(so.sortOf(n))
 		return TV{Term{"(" + info.Fields[i] + " " + base.T.S + ")", info.FSorts[i]}, ft}
@@ -1166,11 +1170,13 @@ func (c *specCtx) call(x *ast.CallExpr) TV {
 	case "store":
 		a, i, v := arg(0), arg(1), arg(2)
 		return TV{tStore(a.T, c.coerce(i, arrayIdxSort(a.T.Sort)), c.coerce(v, arrayElemSort(a.T.Sort))), nil}
-	case "select":
+	case "sel":
 		a, i := arg(0), arg(1)
 		return TV{tSelect(a.T, c.coerce(i, arrayIdxSort(a.T.Sort))), nil}
 	case "ref": // ref(slice): its backing-array reference
 		return TV{slRef(arg(0).T), types.Typ[types.Int]}
+	case "off": // off(slice): offset of its first element in the backing array
+		return TV{slOff(arg(0).T), types.Typ[types.Int]}
 	case "fresh": // fresh(p): p was not allocated in the old state
 		v := arg(0)
 		pt, ok := v.Typ.Underlying().(*types.Pointer)
